@@ -635,6 +635,10 @@ func osfsEngine(c *Ctx) {
 	// ordinary names that merely begin with two dots, met while resolution stands at the base (the k8s atomic-writer layout)
 	corpus = append(corpus, []osNode{{"..data", 'd', ""}, {"..data/f", 'f', ""}, {"current", 'L', "..data"}, {"l1", 'L', "/..data/f"}, {"l2", 'L', "..."},
 		{"...", 'f', ""}, {"d", 'd', ""}, {"d/l1", 'L', "../..data"}, {"sub", 'L', "d/../..data"}, {"f", 'f', ""}})
+	// links whose own names begin with a dot, met as segments of another link's target (the k8s layout with ..data a link;
+	// dotfile links to the outside)
+	corpus = append(corpus, []osNode{{"..2024", 'd', ""}, {"..2024/f", 'f', ""}, {"..data", 'L', "..2024"}, {"f", 'L', "..data/f"}, {"l1", 'L', "/..data/f"},
+		{".cfg", 'L', "@OUT@"}, {"l2", 'L', ".cfg/secret"}, {"d", 'd', ""}, {"d/l1", 'L', "../.cfg/secret"}, {".up", 'L', "../../.."}, {"sub", 'L', ".up/etc"}})
 	// link targets longer than NAME_MAX (up to PATH_MAX is legal): 267 bytes relative, 268 absolute, one in a chain
 	{
 		a, b, cc := strings.Repeat("a", 100), strings.Repeat("b", 100), strings.Repeat("c", 60)
